@@ -540,7 +540,11 @@ fn raw_mode(n: usize, rng: &mut Rng, stats: &mut Stats) {
 // ---------------------------------------------------------------------------------------------
 // source mode: the CLI
 
-struct SrcInstr { time: i32, opcode: u16, mask: Option<i64>, pop: Option<i64>, extra: Option<i64>, argc: Option<i64>, blob: Vec<u8> }
+struct SrcInstr { time: i32, opcode: u16, mask: Option<i64>, pop: Option<i64>, extra: Option<i64>, argc: Option<i64>, blob: Vec<u8>,
+                  /// the instruction is written with a mapfile name that maps to this opcode
+                  alias: Option<(String, i64)>,
+                  /// false when the source gives no @blob (arguments encoded through a signature): the blob is not compared
+                  blob_known: bool }
 
 fn blob_text(b: &[u8]) -> String { hex(b) }
 
@@ -551,7 +555,7 @@ fn instr_text(i: &SrcInstr) -> String {
     if let Some(m) = i.extra { ps.push(format!("@arg0={}", m)); }
     if let Some(m) = i.argc { ps.push(format!("@nargs={}", m)); }
     ps.push(format!("@blob=\"{}\"", blob_text(&i.blob)));
-    format!("ins_{}({});", i.opcode, ps.join(", "))
+    match &i.alias { Some((n, _)) => format!("{}({});", n, ps.join(", ")), None => format!("ins_{}({});", i.opcode, ps.join(", ")) }
 }
 
 fn body_text(l: &[SrcInstr]) -> String {
@@ -567,12 +571,12 @@ fn body_text(l: &[SrcInstr]) -> String {
 /// what the source asks for, as a RawInstr (pseudo-args as written; out-of-type values stay as i64 in `asked`)
 struct Asked { time: i64, opcode: i64, mask: i64, pop: i64, extra: i64, argc: i64, blob: Vec<u8> }
 fn asked_of(sf: Fmt, i: &SrcInstr) -> Asked {
-    Asked { time: i.time as i64, opcode: i.opcode as i64, mask: i.mask.unwrap_or(if sf == Fmt::Ecl06Th06 { 0 } else { 0 }), pop: i.pop.unwrap_or(0),
+    Asked { time: i.time as i64, opcode: i.alias.as_ref().map(|a| a.1).unwrap_or(i.opcode as i64), mask: i.mask.unwrap_or(if sf == Fmt::Ecl06Th06 { 0 } else { 0 }), pop: i.pop.unwrap_or(0),
             extra: i.extra.unwrap_or(0), argc: i.argc.unwrap_or(0), blob: i.blob.clone() }
 }
 
 fn gen_src_instr(sf: Fmt, rng: &mut Rng, big: bool) -> SrcInstr {
-    let mut i = SrcInstr { time: 0, opcode: rng.range(1, 90) as u16, mask: None, pop: None, extra: None, argc: None,
+    let mut i = SrcInstr { time: 0, opcode: rng.range(1, 90) as u16, mask: None, pop: None, extra: None, argc: None, alias: None, blob_known: true,
                            blob: vec![rng.below(256) as u8; if sf == Fmt::Std06 { 12 } else { 4 * rng.below(3) as usize }] };
     match rng.below(12) {
         0 | 1 => i.opcode = *rng.pick(&OPCODES),
@@ -620,8 +624,18 @@ fn src_case(fmt: Fmt, game: Game, rng: &mut Rng, big: bool) -> SrcCase {
             let sprites = (0..nsprites).map(|k| format!("sp{}: {{x: {}.0, y: 0.0, w: 4.0, h: 4.0}}", k, k)).collect::<Vec<_>>().join(", ");
             meta.push(format!("sprites: {{{}}}", sprites));
             writeln!(text, "entry {{ {} }}", meta.join(", ")).unwrap();
+            let alias = if fmt == Fmt::AnmV2 && rng.chance(1, 5) {
+                // an instruction name that a mapfile maps to an opcode outside 0..=65535
+                let n = *rng.pick(&[70000i64, -5, 65543, 131072]);
+                let mp = work_dir("c03").join("alias.anmm");
+                std::fs::write(&mp, format!("!anmmap\n!ins_names\n{} mfoo\n", n)).unwrap();
+                text = format!("#pragma mapfile \"{}\"\n{}", mp.display(), text);
+                write!(note, " mapfile-opcode={}", n).unwrap();
+                Some(("mfoo".to_string(), n))
+            } else { None };
             for k in 0..nscripts {
-                let l = gen_src_script(fmt, rng, big && k == 0);
+                let mut l = gen_src_script(fmt, rng, big && k == 0);
+                if k == 0 { if let Some(a) = &alias { let j = rng.below(l.len() as u64) as usize; l[j].alias = Some(a.clone()); l[j].opcode = a.1 as u16; } }
                 writeln!(text, "script s{} {{ {} }}", k, body_text(&l)).unwrap();
                 scripts.push((fmt, l));
             }
@@ -662,6 +676,88 @@ fn src_case(fmt: Fmt, game: Game, rng: &mut Rng, big: bool) -> SrcCase {
         }
     }
     SrcCase { fmt, game, text, scripts, note }
+}
+
+/// what a source in the generator's subset asks for: scripts in the order FileBox::scripts lists them
+fn parse_asked(fmt: Fmt, game: Game, text: &str) -> Option<Vec<(Fmt, Vec<SrcInstr>)>> {
+    let mut subs = vec![]; let mut tls = vec![]; let mut plain = vec![];
+    let bytes: Vec<char> = text.chars().collect();
+    let mut k = 0;
+    let (ef, tf) = olde_fmts_game(game);
+    while k < bytes.len() {
+        // find `script NAME {` or `void NAME() {`
+        let rest: String = bytes[k..].iter().collect();
+        let is_script = rest.starts_with("script ") && (k == 0 || !bytes[k - 1].is_alphanumeric());
+        let is_void = rest.starts_with("void ") && (k == 0 || !bytes[k - 1].is_alphanumeric());
+        if !(is_script || is_void) { k += 1; continue; }
+        let open = match rest.find('{') { Some(o) => o, None => break };
+        let head = &rest[..open];
+        // body up to the matching brace (bodies of the subset contain no braces besides strings' absence)
+        let mut depth = 0; let mut end = None; let mut in_str = false;
+        for (j, c) in rest.char_indices().skip(open) {
+            if c == '"' { in_str = !in_str; }
+            if in_str { continue; }
+            if c == '{' { depth += 1; } else if c == '}' { depth -= 1; if depth == 0 { end = Some(j); break; } }
+        }
+        let end = end?;
+        let body = &rest[open + 1..end];
+        let instrs = parse_body(body)?;
+        let is_timeline = is_script && head.contains("timeline");
+        match fmt {
+            Fmt::Ecl06 | Fmt::Ecl06Th06 | Fmt::Tl06 | Fmt::Tl08 => if is_timeline { tls.push((tf, instrs)); } else { subs.push((ef, instrs)); },
+            _ => plain.push((fmt, instrs)),
+        }
+        k += end + 1;
+    }
+    subs.extend(tls); plain.extend(subs);
+    Some(plain)
+}
+
+fn parse_body(body: &str) -> Option<Vec<SrcInstr>> {
+    let mut out = vec![];
+    let mut time = 0i32;
+    let mut rest = body.trim_start();
+    while !rest.is_empty() {
+        // time label
+        let lab_end = rest.find(':');
+        let stmt_end = rest.find(';');
+        if let Some(le) = lab_end {
+            if stmt_end.map_or(true, |se| le < se) && !rest[..le].contains('(') {
+                let l = rest[..le].trim();
+                if let Some(r) = l.strip_prefix('+') { time = time.checked_add(r.trim().parse().ok()?)?; }
+                else if let Ok(t) = l.parse::<i32>() { time = t; }
+                else { return None; }     // a named label or something outside the subset
+                rest = rest[le + 1..].trim_start();
+                continue;
+            }
+        }
+        let se = stmt_end?;
+        let stmt = rest[..se].trim();
+        rest = rest[se + 1..].trim_start();
+        if stmt.is_empty() { continue; }
+        let op = stmt.find('(')?;
+        let name = stmt[..op].trim();
+        let args = stmt[op + 1..stmt.rfind(')')?].trim();
+        let opcode: u16 = name.strip_prefix("ins_")?.parse().ok()?;
+        let mut i = SrcInstr { time, opcode, mask: None, pop: None, extra: None, argc: None, blob: vec![], alias: None, blob_known: false };
+        for a in args.split(',').map(|a| a.trim()).filter(|a| !a.is_empty()) {
+            let (k, v) = a.split_once('=').map(|(k, v)| (k.trim(), v.trim())).unwrap_or((a, ""));
+            match k {
+                "@mask" => i.mask = Some(parse_int(v)?),
+                "@pop" => i.pop = Some(parse_int(v)?),
+                "@arg0" => i.extra = Some(parse_int(v)?),
+                "@nargs" => i.argc = Some(parse_int(v)?),
+                "@blob" => { let h: String = v.trim_matches('"').chars().filter(|c| !c.is_whitespace()).collect();
+                             i.blob = (0..h.len() / 2).map(|k| u8::from_str_radix(&h[2 * k..2 * k + 2], 16).ok()).collect::<Option<Vec<u8>>>()?; i.blob_known = true; }
+                _ => {}       // an ordinary argument: encoded through a signature, not compared
+            }
+        }
+        out.push(i);
+    }
+    Some(out)
+}
+fn parse_int(v: &str) -> Option<i64> {
+    if let Some(h) = v.strip_prefix("0x") { i64::from_str_radix(h, 16).ok() } else { v.parse().ok() }
 }
 
 fn cli() -> PathBuf {
@@ -750,9 +846,12 @@ fn check_source(fmt: Fmt, game: Game, text: &str, asked: Option<&[(Fmt, Vec<SrcI
         }
         compare_meta(fmt, mem, back_file, &short_input, note);
     } else {
-        println!("ORACLE-FAIL\tc03 format={} field=cli-vs-library\tCLI exits 0 but the in-process compile fails\t{}", fmt.name(), short_input);
+        // sources that rely on built-in signatures cannot be compiled in-process (core mapfiles are private to truth)
+        stats.bump(&format!("src-{}:no-inprocess-compile", fmt.name()));
     }
     // (b) against what the source asked for
+    let parsed;
+    let asked = match asked { Some(a) => Some(a), None => { parsed = parse_asked(fmt, game, text); parsed.as_deref() } };
     if let Some(asked) = asked {
         for (k, ((sf, want), (_, b))) in asked.iter().zip(&back_scripts).enumerate() {
             if want.len() != b.instrs.len() {
@@ -764,7 +863,7 @@ fn check_source(fmt: Fmt, game: Game, text: &str, asked: Option<&[(Fmt, Vec<SrcI
                 let mut diffs: Vec<(&str, i64, i64)> = vec![];
                 if a.time != c.time as i64 { diffs.push(("time", a.time, c.time as i64)); }
                 if a.opcode != c.opcode as i64 { diffs.push(("opcode", a.opcode, c.opcode as i64)); }
-                if a.blob != c.args_blob { diffs.push(("size", a.blob.len() as i64, c.args_blob.len() as i64)); }
+                if w.blob_known && a.blob != c.args_blob { diffs.push(("size", a.blob.len() as i64, c.args_blob.len() as i64)); }
                 if w.mask.is_some() && a.mask != c.param_mask as i64 { diffs.push((if sf.stores("mask") { "pseudo-mask" } else { "mask-unstored" }, a.mask, c.param_mask as i64)); }
                 if w.pop.is_some() && a.pop != c.pop as i64 { diffs.push((if sf.stores("pop") { "pseudo-pop" } else { "pop-unstored" }, a.pop, c.pop as i64)); }
                 if w.extra.is_some() && a.extra != c.extra_arg.unwrap_or(0) as i64 { diffs.push((if sf.stores("extra") { "pseudo-arg0" } else { "extra-unstored" }, a.extra, c.extra_arg.unwrap_or(0) as i64)); }
@@ -777,7 +876,8 @@ fn check_source(fmt: Fmt, game: Game, text: &str, asked: Option<&[(Fmt, Vec<SrcI
                         let ri = if *sf == Fmt::Ecl06Th06 { RawInstr { param_mask: 0xff, ..ri } } else { ri };
                         field = match unfit_field(*sf, &ri) { Some(u) if !u.ends_with("-unstored") => u.to_string(), _ => format!("{}-in-range", f) };
                     }
-                    if field.starts_with("pseudo-") {
+                    if *f == "opcode" && w.alias.is_some() { field = "mapfile-opcode".to_string(); }
+                    if field.starts_with("pseudo-") || field == "mapfile-opcode" {
                         println!("ORACLE-FAIL\tc03 field={}\t{} script {} instr {}: source asks {} = {}, file reads back {}\t{}", field, sf.name(), k, j, f, x, y, short_input);
                     } else {
                         println!("ORACLE-FAIL\tc03 format={} field={}\tscript {} instr {}: source asks {} = {}, file reads back {}\t{}", sf.name(), field, k, j, f, x, y, short_input);
